@@ -43,7 +43,7 @@ func ruleNameToken(p *Program, r *Reporter) {
 	// role helpers: curTokenIs / peekTokenIs: (token.Type) bool reading cur/peek token
 	var curIs, peekIs *ssa.Function
 	for _, fn := range pr.all {
-		if fn.Parent() != nil || fn == pr.expect {
+		if fn.Parent() != nil || pr.isExpect(fn) {
 			continue
 		}
 		ps, rs := sigParams(fn), sigResults(fn)
@@ -241,7 +241,7 @@ func identGuarded(load ssa.Instruction, pr *parserRoles, curIs, peekIs *ssa.Func
 				if guards(c, load) {
 					return // guarded on this path
 				}
-			case cal == pr.expect && isIdent(c.Call.Args[1]) && advanced == 0:
+			case pr.isExpect(cal) && isIdent(c.Call.Args[1]) && advanced == 0:
 				if guards(c, load) {
 					return
 				}
@@ -251,7 +251,7 @@ func identGuarded(load ssa.Instruction, pr *parserRoles, curIs, peekIs *ssa.Func
 				if guards(c, load) {
 					return
 				}
-			case cal == pr.advance || cal == pr.expect:
+			case cal == pr.advance || pr.isExpect(cal):
 				advanced++
 				if advanced > 1 {
 					good, why = false, "the token the name is taken from was reached by advancing without any test that it is an identifier"
